@@ -20,7 +20,11 @@ def explore_config(prop: str, workers: int, max_fails: int, max_dev: int, max_de
     acc.paths += 1
     depth = 0
     fix = False
-    while frontier:
+    import time as _time
+
+    t0 = _time.time()
+    stop = False
+    while frontier and not stop:
         if depth >= max_depth:
             acc.cap(f"depth bound {max_depth} reached before the fixpoint for workers={workers} max_fails={max_fails}")
             break
@@ -44,6 +48,13 @@ def explore_config(prop: str, workers: int, max_fails: int, max_dev: int, max_de
                             f"{msg} | workers={workers} max_fails={max_fails} history={json.dumps(jsonable(_brief(h)))}",
                             {"workers": workers, "max_fails": max_fails, "history": h, "key": key},
                         )
+                if any(k.startswith(prefix) for k, _ in mon.violations) and len(acc.violations) >= 6:
+                    stop = True  # this configuration has failed; more histories add nothing
+                if _time.time() - t0 > 240:
+                    acc.cap(f"time budget exhausted for workers={workers} max_fails={max_fails}")
+                    stop = True
+                if stop:
+                    break
                 c = canonical(env)
                 k = (c, used + (1 if choice.get("dev") else 0))
                 if c[0] == "end":
@@ -57,9 +68,11 @@ def explore_config(prop: str, workers: int, max_fails: int, max_dev: int, max_de
                 nxt.append(h)
                 if len(nxt) == 3 or acc.transitions % 2003 == 1:
                     acc.sample({"workers": workers, "max_fails": max_fails, "history": _brief(h), "trace_tail": [list(map(str, e)) for e in env.events[-8:]]})
+            if stop:
+                break
         frontier = nxt
         depth += 1
-    else:
+    if not frontier and not stop:
         fix = True
     acc.maximum(f"fixpoint_depth_w{workers}_f{max_fails}", depth)
     if fix:
